@@ -94,7 +94,8 @@ def run_shard(spec):
         max_steps = 0
         for i in range(spec["count"]):
             files, how = gen_input(rnd, root)
-            case = {"files": files, "handler": rnd.choice(["bare", "graphical", "record"]), "cli": (i % 200 == 0), "root": root}
+            case = {"files": files, "handler": rnd.choice(["bare", "graphical", "record"]), "cli": (i % 100 == 0), "root": root,
+                    "wctl": rnd.choice(["everything", "everything", "default", "nothing", "ids-off", "ids-off"]), "wseed": rnd.randrange(1 << 30)}
             vs, info = run_one(case, cnt)
             res["violations"].extend(vs)
             res["evaluations"] += 1
@@ -118,13 +119,49 @@ def run_shard(spec):
     return res
 
 
-def make_handler(kind, rec):
+_ALL_IDS = []
+
+
+def all_ids():
+    """Every diagnostic identifier that occurs in the sources (over-inclusive: extra keys in a warning table are harmless)."""
+    if not _ALL_IDS:
+        import glob
+        import re
+        import pdpy11
+        found = set()
+        for path in glob.glob(os.path.join(os.path.dirname(pdpy11.__file__), "*.py")):
+            with open(path, encoding="utf-8") as f:
+                found.update(re.findall(r'"([a-z]+(?:-[a-z0-9]+)+)"', f.read()))
+        _ALL_IDS.extend(sorted(found))
+    return _ALL_IDS
+
+
+def warning_control(case):
+    """The table FilterHandler gets from the command line's -W options (-Wx -> True, -Wno-x -> False), chosen per case."""
+    from pdpy11 import reports
+    how = case.get("wctl", "everything")
+    if how == "everything":
+        return {w: True for w in reports.WARNING_CLASSES["all"]}
+    if how == "default":
+        return {}
+    if how == "nothing":
+        return {w: False for w in reports.WARNING_CLASSES["all"]}
+    r = random.Random(case.get("wseed", 0))
+    ids = all_ids()
+    return {i: r.random() < 0.25 for i in r.sample(ids, min(len(ids), r.randrange(1, 40)))}
+
+
+def make_handler(kind, rec, case=None, shown=None):
     from pdpy11 import reports
     if kind == "record":
         return rec
     real = reports.BareHandler() if kind == "bare" else reports.GraphicalHandler()
-    everything = {w: True for w in reports.WARNING_CLASSES["all"]}
-    filt = reports.FilterHandler(real, everything)
+
+    def past_filter(priority, identifier, *spans):
+        if shown is not None:
+            shown.append(("warning" if priority is reports.warning else "error", identifier))
+        real(priority, identifier, *spans)
+    filt = reports.FilterHandler(past_filter, warning_control(case or {}))
 
     def tee(priority, identifier, *spans):
         rec(priority, identifier, *spans)
@@ -139,13 +176,15 @@ def run_one(case, cnt):
     nlines = sum(t.count("\n") + 1 for _, t in files)
     budget = 3_000_000 + 30_000 * nlines
     rec = asm.Recorder()
-    o = asm.assemble(files, budget=budget, wall=300, handler=make_handler(case["handler"], rec))
+    shown = []
+    o = asm.assemble(files, budget=budget, wall=300, handler=make_handler(case["handler"], rec, case, shown))
     o.events = rec.events
     texts = [t for _, t in files]
     if o.cls == "nonterm" and not huge_repeat(o) and known_key(texts, o) is None:
         # many lazily sized statements before the base is known cost O(n^3) steps: slow, but finite.  Decide with a 40x budget.
         rec = asm.Recorder()
-        o2 = asm.assemble(files, budget=40 * budget, wall=900, handler=make_handler(case["handler"], rec))
+        shown = []
+        o2 = asm.assemble(files, budget=40 * budget, wall=900, handler=make_handler(case["handler"], rec, case, shown))
         o2.events = rec.events
         if o2.cls != "nonterm":
             cnt["slow_but_terminating"] = cnt.get("slow_but_terminating", 0) + 1
@@ -171,6 +210,11 @@ def run_one(case, cnt):
         viol(f"does not terminate within the logical budget ({o.steps} events, budget {budget}); input starts: {brief}", known_key(texts, o))
     elif o.cls == "fail" and not o.errors:
         viol(f"assembly failed without any error diagnostic (events: {[(e['sev'], e['id']) for e in o.events][:5]}); input starts: {brief}")
+    elif o.cls == "fail" and case["handler"] != "record" and not any(sev == "error" for sev, _ in shown):
+        viol(f"assembly failed and no error got past the warning filter to the {case['handler']} handler (warning table {case.get('wctl')}: "
+             f"{ {k: v for k, v in warning_control(case).items() if k in set(e['id'] for e in o.events)} }; issued: {[(e['sev'], e['id']) for e in o.events][:5]}); input starts: {brief}")
+    elif o.cls == "fail" and case["handler"] != "record":
+        cnt["failed_runs_with_error_past_filter"] = cnt.get("failed_runs_with_error_past_filter", 0) + 1
     if o.leaks:
         cnt["leaks_at_quiescent_points"] += 1
         if o.cls in ("ok", "fail"):
